@@ -56,6 +56,17 @@ func main() {
 		}
 		cleanupScratch()
 		os.Exit(rc)
+	case "surface":
+		p, err := LoadProgram(repoDir())
+		if err != nil {
+			fmt.Println("load error:", err)
+			os.Exit(2)
+		}
+		f := ""
+		if len(os.Args) > 2 {
+			f = os.Args[2]
+		}
+		cmdSurface(p, f)
 	case "check":
 		os.Exit(cmdCheck(os.Args[2:]))
 	default:
@@ -92,9 +103,12 @@ func printReport(rep *FuncReport, verbose bool, dump string) bool {
 	for _, o := range rep.Obligations {
 		if o.Status != "discharged" {
 			ok = false
-			fmt.Printf("   %-10s %s  [%s] %s\n      %s\n", o.Status, o.Name, o.Output, o.Note, o.Goal)
-			if o.Model != nil {
-				fmt.Printf("      model: %v\n", o.Model)
+			fmt.Printf("   %-10s %s  [%s] %s\n", o.Status, strings.TrimPrefix(o.Name, rep.Key), o.Output, clip(o.Note, 160))
+			if verbose {
+				fmt.Printf("      %s\n", clip(o.Goal.String(), 2000))
+				if o.Model != nil {
+					fmt.Printf("      model: %v\n", o.Model)
+				}
 			}
 			if verbose {
 				for _, h := range o.Hyps {
@@ -126,3 +140,10 @@ func printReport(rep *FuncReport, verbose bool, dump string) bool {
 }
 
 func cmdCheck(args []string) int { fmt.Println("not implemented yet"); return 2 }
+
+func clip(s string, n int) string {
+	if len(s) > n {
+		return s[:n] + "..."
+	}
+	return s
+}
